@@ -153,6 +153,13 @@ def runCase (j : Json) : E Json := do
     match evalModel rc rn env t with
     | .ok r => pure (showArr r)
     | .error e => pure (showErr e)
+  | "powarr" =>
+    let a ← parseArr (← j.getObjVal? "a")
+    let kshape ← jNats (← j.getObjVal? "kshape")
+    let ks ← jNats (← j.getObjVal? "ks")
+    match Arr.powArr rc rn a kshape ks with
+    | .ok r => pure (showArr r)
+    | .error e => pure (showErr e)
   | "opts" =>
     let init ← jKw (← j.getObjVal? "init")
     let prog ← (← jList (← j.getObjVal? "prog")).mapM parseStmt
